@@ -352,6 +352,22 @@ Definition is_err (i : impl_result) : bool := match i with IErr _ => true | IOk 
    e3       : evaluate in two steps (s = s1 ++ s2, numeric, disjoint)      (IErr "skip" when not exercised)
    tie  = implementation vs model's evaluate
    spec = C05 itself, checked on the implementation's own trees *)
+(* the 15-significant-digit clause of C05 on one resource of a child of an evaluated tree: the value the code reports
+   against the exact value of the expression (a rational worked out from the assignment), within 6e-15 of it RELATIVELY
+   (half a unit of the 15th digit is at most 5e-15 of the value; the conversion to a double adds about 1e-16) *)
+Definition sig15 (t : impl_result) (child res : string) (exact : Q) : nat :=
+  match t with
+  | IOk tr =>
+      match find_ct child (ct_children tr) with
+      | Some k => match lookup res (ct_resources k) with
+                  | Some (_, e) => cmpQ_rel (6 # 1000000000000000) (evalQ (dfltQ 0%Z) e) (Some exact)
+                  | None => 2%nat
+                  end
+      | None => 2%nat
+      end
+  | IErr _ => 2%nat
+  end.
+
 Definition check_eval_case (compiled : ctree expr) (s : env) (fm : list fimpl) (self_ref : bool)
            (e1 e2 e3 : impl_result) (inexact : bool) (pts : list (list (string * Q))) : list nat * list nat :=
   let fuel := S (ct_height compiled) in
